@@ -5,6 +5,7 @@ package sensors
 // Contracts for package sensors, read by /verif/govc (comment-only file, compiled only with -tags verif).
 
 //@ ghost var lastValue float64
+//@ ghost var lastAvgRead float64
 
 //@ pure sensorWF(s Sensor) bool = s != nil && (s is *HwmonSensor ==> s.(*HwmonSensor) != nil) && (s is *FileSensor ==> s.(*FileSensor) != nil && s.(*FileSensor).Config.File != nil) && (s is *CmdSensor ==> s.(*CmdSensor) != nil && s.(*CmdSensor).Config.Cmd != nil) && (s is *VirtualSensor ==> s.(*VirtualSensor) != nil)
 //@ pure avgOf(s Sensor) float64 = s is *HwmonSensor ? s.(*HwmonSensor).MovingAvg : (s is *FileSensor ? s.(*FileSensor).MovingAvg : (s is *CmdSensor ? s.(*CmdSensor).MovingAvg : s.(*VirtualSensor).Value))
@@ -23,8 +24,10 @@ package sensors
 //@   ensures[C08.value]     err == nil ==> real(result) == real(fileInt[sensor.Input]) || !(-9007199254740992 <= fileInt[sensor.Input] && fileInt[sensor.Input] <= 9007199254740992)
 //@   modifies lastReadFailed, lastValue
 //@ func (*HwmonSensor).GetMovingAvg
+//@   ghostret lastAvgRead := avg
+//@   ensures same(lastAvgRead, avg)
 //@   ensures same(avg, sensor.MovingAvg)
-//@   modifies nothing
+//@   modifies lastAvgRead
 //@ func (*HwmonSensor).SetMovingAvg
 //@   ensures same(sensor.MovingAvg, avg)
 //@   modifies sensor.MovingAvg
@@ -43,8 +46,10 @@ package sensors
 //@   ensures[C08.finite]    err == nil ==> fin(result)
 //@   modifies lastReadFailed, lastValue
 //@ func (*FileSensor).GetMovingAvg
+//@   ghostret lastAvgRead := avg
+//@   ensures same(lastAvgRead, avg)
 //@   ensures same(avg, sensor.MovingAvg)
-//@   modifies nothing
+//@   modifies lastAvgRead
 //@ func (*FileSensor).SetMovingAvg
 //@   ensures same(sensor.MovingAvg, avg)
 //@   modifies sensor.MovingAvg
@@ -62,8 +67,10 @@ package sensors
 //@   ensures[C08.finite]    err == nil ==> fin(result)
 //@   modifies procWorld, started, lastValue
 //@ func (*CmdSensor).GetMovingAvg
+//@   ghostret lastAvgRead := avg
+//@   ensures same(lastAvgRead, avg)
 //@   ensures same(avg, sensor.MovingAvg)
-//@   modifies nothing
+//@   modifies lastAvgRead
 //@ func (*CmdSensor).SetMovingAvg
 //@   ensures same(sensor.MovingAvg, avg)
 //@   modifies sensor.MovingAvg
@@ -78,8 +85,10 @@ package sensors
 //@   ensures err == nil && same(result, sensor.Value)
 //@   modifies lastValue
 //@ func (VirtualSensor).GetMovingAvg
+//@   ghostret lastAvgRead := avg
+//@   ensures same(lastAvgRead, avg)
 //@   ensures same(avg, sensor.Value)
-//@   modifies nothing
+//@   modifies lastAvgRead
 //@ func (*VirtualSensor).SetMovingAvg
 //@   ensures same(sensor.Value, avg)
 //@   modifies sensor.Value
